@@ -564,6 +564,11 @@ func (server *Server) listen(sock socket.Socket, address string, New NewServerCo
 					if svrctx.sched != nil {
 						svrctx.sched.Close()
 					}
+					// As in ServeCodec: release the handlers blocked on the
+					// connection's streams.
+					for _, ctx := range svrctx.streams {
+						ctx.stream.Close()
+					}
 					if svrctx.readStream != nil {
 						svrctx.readStream.Close()
 					}
